@@ -13,7 +13,7 @@ import sys
 HERE = os.path.dirname(os.path.abspath(__file__))
 VERIF = os.path.dirname(HERE)
 sys.path.insert(0, VERIF)
-from engine import roles  # noqa: E402
+from engine import normal, roles  # noqa: E402
 from engine.core import ANCHOR_MODULES, OTHER_MODULES  # noqa: E402
 
 
@@ -25,7 +25,7 @@ def main():
         p = os.path.join(root, rel)
         if not os.path.exists(p):
             continue
-        tree = ast.parse(open(p, encoding="utf-8").read())
+        tree = normal.normalise(ast.parse(open(p, encoding="utf-8").read()))
         tab = {}
 
         def visit(body, prefix):
